@@ -170,107 +170,123 @@ def _analyse_primitive(ctx, mod, clsname, spec):
         ctx.functions.add(f"{DEFER}:{r[0].name}.{name}")
         return r
 
-    # ---- acquire --------------------------------------------------------------------------------
-    owner, acq = lookup("acquire")
-    finals = []
-    for fields, ghost in spec.states():
-        finals += interp.run(acq, make_state(fields, ghost), {}, owner)
-    qa = f"{MODNAME}.{owner.name}.acquire"
-    _exit_check(ctx, interp, spec, qa, finals)
+    # cancellers installed anywhere in the class hierarchy (found syntactically: an unreadable acquire() must not hide them)
     cancellers = set()
-    disp_bad = ret_bad = canc_bad = raise_bad = None
-    for f in finals:
-        if f.exit[0] == "raise":
-            raise_bad = raise_bad or f
-            continue
-        v = f.exit[1]
-        if v[0] != "dfr" or f.dfrs[v[1]]["origin"] != ("fresh",):
-            ret_bad = ret_bad or f
-            continue
-        rec = f.dfrs[v[1]]
-        queued = rec["where"] == "waiting"
-        granted = rec["fired"] is not None and rec["fired"][0] == "callback"
-        if queued == granted:
-            disp_bad = disp_bad or (f, queued)
-        c = rec["canceller"]
-        if queued:
-            if c is None or c[0] != "meth":
-                canc_bad = canc_bad or f
-            else:
-                cancellers.add(c[1])
-    ctx.check(raise_bad is None, "acquire/never-raises", qa, "acquire() raises instead of returning a Deferred",
-              witness=f"abstract pre-state: {raise_bad.pre}" if raise_bad else "")
-    ctx.check(ret_bad is None, "acquire/returns-own-deferred", qa, "acquire() does not return the Deferred it created",
-              witness=f"abstract pre-state: {ret_bad.pre}" if ret_bad else "")
-    ctx.check(disp_bad is None, "acquire/queued-xor-granted", qa,
-              ("the acquisition is granted and also left in `waiting` (it will be granted twice)" if disp_bad and disp_bad[1]
-               else "the acquisition is neither granted nor queued: it is never granted"),
-              witness=f"abstract pre-state: {disp_bad[0].pre}" if disp_bad else "")
-    ctx.check(canc_bad is None, "cancel/canceller-installed", qa,
-              "a queued acquisition has no canceller that removes it from `waiting`: once cancelled it stays queued, is later "
-              "'granted' and the capacity handed to it is lost",
-              witness=f"abstract pre-state: {canc_bad.pre}" if canc_bad else "")
+    for kls in [cls] + [b for b in (mod.find(dotted(x) or "") for x in cls.bases) if isinstance(b, ast.ClassDef)]:
+        for c in ast.walk(kls):
+            if isinstance(c, ast.Call) and (dotted(c.func) or "").split(".")[-1] == "Deferred":
+                ce = next((k.value for k in c.keywords if k.arg == "canceller"), c.args[0] if c.args else None)
+                if ce is not None and (dotted(ce) or "").startswith("self.") and mro_lookup(mod, cls, dotted(ce)[5:]):
+                    cancellers.add(dotted(ce)[5:])
+    qa = f"{MODNAME}.{clsname}.acquire"
+    with ctx.section(f"{clsname}.acquire"):
+        # ---- acquire --------------------------------------------------------------------------------
+        owner, acq = lookup("acquire")
+        finals = []
+        for fields, ghost in spec.states():
+            finals += interp.run(acq, make_state(fields, ghost), {}, owner)
+        qa = f"{MODNAME}.{owner.name}.acquire"
+        _exit_check(ctx, interp, spec, qa, finals)
+        disp_bad = ret_bad = canc_bad = raise_bad = None
+        for f in finals:
+            if f.tainted:
+                interp.uncertain.append(f"{qa}: path after an unmodelled call not judged")
+                continue
+            if f.exit[0] == "raise":
+                raise_bad = raise_bad or f
+                continue
+            v = f.exit[1]
+            if v[0] != "dfr" or f.dfrs[v[1]]["origin"] != ("fresh",):
+                ret_bad = ret_bad or f
+                continue
+            rec = f.dfrs[v[1]]
+            queued = rec["where"] == "waiting"
+            granted = rec["fired"] is not None and rec["fired"][0] == "callback"
+            if queued == granted:
+                disp_bad = disp_bad or (f, queued)
+            c = rec["canceller"]
+            if queued:
+                if c is None or c[0] != "meth":
+                    canc_bad = canc_bad or f
+                else:
+                    cancellers.add(c[1])
+        ctx.check(raise_bad is None, "acquire/never-raises", qa, "acquire() raises instead of returning a Deferred",
+                  witness=f"abstract pre-state: {raise_bad.pre}" if raise_bad else "")
+        ctx.check(ret_bad is None, "acquire/returns-own-deferred", qa, "acquire() does not return the Deferred it created",
+                  witness=f"abstract pre-state: {ret_bad.pre}" if ret_bad else "")
+        ctx.check(disp_bad is None, "acquire/queued-xor-granted", qa,
+                  ("the acquisition is granted and also left in `waiting` (it will be granted twice)" if disp_bad and disp_bad[1]
+                   else "the acquisition is neither granted nor queued: it is never granted"),
+                  witness=f"abstract pre-state: {disp_bad[0].pre}" if disp_bad else "")
+        ctx.check(canc_bad is None, "cancel/canceller-installed", qa,
+                  "a queued acquisition has no canceller that removes it from `waiting`: once cancelled it stays queued, is later "
+                  "'granted' and the capacity handed to it is lost",
+                  witness=f"abstract pre-state: {canc_bad.pre}" if canc_bad else "")
 
-    # ---- release --------------------------------------------------------------------------------
-    owner, rel = lookup("release")
-    qr = f"{MODNAME}.{owner.name}.release"
-    finals = []
-    for fields, ghost, pre in _dec_pre(spec.states()):
-        st = make_state(fields, ghost)
-        st.pre = pre
-        finals += interp.run(rel, st, {}, owner)
-    _exit_check(ctx, interp, spec, qr, finals)
-    rb = next((f for f in finals if f.exit[0] == "raise"), None)
-    ctx.check(rb is None, "release/never-raises", qr, "release() by a holder raises",
-              witness=f"abstract pre-state: {rb.pre}" if rb else "")
+    with ctx.section(f"{clsname}.release"):
+        # ---- release --------------------------------------------------------------------------------
+        owner, rel = lookup("release")
+        qr = f"{MODNAME}.{owner.name}.release"
+        finals = []
+        for fields, ghost, pre in _dec_pre(spec.states()):
+            st = make_state(fields, ghost)
+            st.pre = pre
+            finals += interp.run(rel, st, {}, owner)
+        _exit_check(ctx, interp, spec, qr, finals)
+        rb = next((f for f in finals if f.exit[0] == "raise"), None)
+        ctx.check(rb is None, "release/never-raises", qr, "release() by a holder raises",
+                  witness=f"abstract pre-state: {rb.pre}" if rb else "")
 
     # ---- canceller(s) ---------------------------------------------------------------------------
     for cname in sorted(cancellers):
-        owner, cf = lookup(cname)
-        qc = f"{MODNAME}.{owner.name}.{cname}"
-        params = [a.arg for a in cf.args.posonlyargs + cf.args.args][1:]
-        ctx.need(len(params) == 1, f"{qc}: canceller takes exactly the Deferred")
-        finals = []
-        for fields, ghost in spec.states():
-            if fields["waiting"][1] == 0:
-                continue
-            st = make_state(fields, ghost)
-            st.pre = f"a Deferred queued in [{st.pre}] is cancelled"
-            d = st.new_dfr(origin=("member", "waiting"), where="waiting", pristine=False)
-            finals += interp.run(cf, st, {params[0]: d}, owner)
-        _exit_check(ctx, interp, spec, qc, finals)
-        bad = None
-        for f in finals:
-            if f.exit[0] != "return":
-                continue
-            rec = f.dfrs[1]
-            if rec["where"] is not None or rec["origin"] != ("removed", "waiting"):
-                bad = bad or (f, "the cancelled Deferred stays in `waiting`: it will be 'granted' later and that capacity is lost")
-            if rec["fired"] is not None:
-                bad = bad or (f, "the canceller fires the cancelled acquisition")
-        ctx.check(bad is None, "cancel/removes-from-waiting", qc, bad[1] if bad else "",
-                  witness=f"abstract pre-state: {bad[0].pre}" if bad else "")
+        with ctx.section(f"{clsname}.{cname}"):
+            owner, cf = lookup(cname)
+            qc = f"{MODNAME}.{owner.name}.{cname}"
+            params = [a.arg for a in cf.args.posonlyargs + cf.args.args][1:]
+            ctx.need(len(params) == 1, f"{qc}: canceller takes exactly the Deferred")
+            finals = []
+            for fields, ghost in spec.states():
+                if fields["waiting"][1] == 0:
+                    continue
+                st = make_state(fields, ghost)
+                st.pre = f"a Deferred queued in [{st.pre}] is cancelled"
+                d = st.new_dfr(origin=("member", "waiting"), where="waiting", pristine=False)
+                finals += interp.run(cf, st, {params[0]: d}, owner)
+            _exit_check(ctx, interp, spec, qc, finals)
+            bad = None
+            for f in finals:
+                if f.exit[0] != "return":
+                    continue
+                rec = f.dfrs[1]
+                if rec["where"] is not None or rec["origin"] != ("removed", "waiting"):
+                    bad = bad or (f, "the cancelled Deferred stays in `waiting`: it will be 'granted' later and that capacity is lost")
+                if rec["fired"] is not None:
+                    bad = bad or (f, "the canceller fires the cancelled acquisition")
+            ctx.check(bad is None, "cancel/removes-from-waiting", qc, bad[1] if bad else "",
+                      witness=f"abstract pre-state: {bad[0].pre}" if bad else "")
     ctx.check(bool(cancellers), "cancel/canceller-installed", qa + " | <queued branch>",
               "no path of acquire() queues a Deferred with a canceller")
 
-    # ---- every other mutator of the modelled fields ------------------------------------------------
-    tracked = set(spec.states()[0][0])
-    done = {"acquire", "release", "__init__"} | cancellers
-    acc = class_accesses(mod, cls, tracked, receivers={"self"})
-    inlined = {call_name(c)[5:] for m_ in ms.values() for c in ast.walk(m_) if isinstance(c, ast.Call) and (call_name(c) or "").startswith("self.")}
-    for name in sorted({a.func.split(".")[1] for a in acc} - done):
-        if name.startswith("_") and name in inlined:
-            continue  # private helper: analysed inlined at its call sites, it is not an entry point
-        f = ms[name]
-        finals = []
-        params = [a.arg for a in f.args.posonlyargs + f.args.args][1:]
-        for fields, ghost in spec.states():
-            finals += interp.run(f, make_state(fields, ghost), {p: ("obj", p) for p in params}, cls)
-        _exit_check(ctx, interp, spec, f"{q}.{name}", finals)
+    with ctx.section(f"{clsname} other mutators"):
+        # ---- every other mutator of the modelled fields ------------------------------------------------
+        tracked = set(spec.states()[0][0])
+        done = {"acquire", "release", "__init__"} | cancellers
+        acc = class_accesses(mod, cls, tracked, receivers={"self"})
+        inlined = {call_name(c)[5:] for m_ in ms.values() for c in ast.walk(m_) if isinstance(c, ast.Call) and (call_name(c) or "").startswith("self.")}
+        for name in sorted({a.func.split(".")[1] for a in acc} - done):
+            if name.startswith("_") and name in inlined:
+                continue  # private helper: analysed inlined at its call sites, it is not an entry point
+            f = ms[name]
+            finals = []
+            params = [a.arg for a in f.args.posonlyargs + f.args.args][1:]
+            for fields, ghost in spec.states():
+                finals += interp.run(f, make_state(fields, ghost), {p: ("obj", p) for p in params}, cls)
+            _exit_check(ctx, interp, spec, f"{q}.{name}", finals)
     _report(ctx, interp)
 
     # ---- K5: FIFO discipline of `waiting` by operation kind -----------------------------------------
-    fifo_rule(ctx, mod, cls, MODNAME, "waiting", cancellers)
+    with ctx.section(f"{clsname} fifo"):
+        fifo_rule(ctx, mod, cls, MODNAME, "waiting", cancellers)
     return cls
 
 
@@ -359,6 +375,15 @@ def _check_run(ctx, mod):
         ctx.check(ok, "run/executes-only-when-acquired", ctx.construct(qr, c),
                   f"the function is registered with {kind}: a cancelled (failed) acquisition would still run it and release() "
                   "capacity it never held")
+    for c, r in on_acq:
+        tgt = dotted(c.args[0]) if c.args else None
+        if tgt and tgt.startswith("self."):
+            m = mro_lookup(mod, cls, tgt[5:])
+            releases = bool(m) and isinstance(m[1], ast.FunctionDef) and any(
+                isinstance(x, ast.Call) and call_name(x) == "self.release" for x in ast.walk(m[1]))
+            ctx.check(not releases or c.func.attr == "addCallback", "run/release-only-when-acquired", ctx.construct(qr, c),
+                      f"{tgt} (which releases) is registered with {c.func.attr} on the Deferred of acquire(): when the pending acquisition "
+                      "is cancelled it still runs and releases capacity that was never held")
     ctx.check(len(executors) == 1, "run/executes-only-when-acquired", qr + " | <executor registration>",
               f"{len(executors)} executor registrations found on self.acquire() (exactly one expected)")
     rets = [s for s in ast.walk(run) if isinstance(s, ast.Return) and mod.enclosing_function(s) is run]
@@ -434,6 +459,8 @@ def _check_run(ctx, mod):
                   "the executor does not return the function's Deferred: run()'s Deferred fires before the result is available")
 
     # (3) the releasing callback: release exactly once on every path, result passed through
+    if not releasers and "_releaseAndReturn" in methods(cls):
+        releasers.add("_releaseAndReturn")
     for name in sorted(releasers):
         r = mro_lookup(mod, cls, name)
         ctx.need(r and isinstance(r[1], ast.FunctionDef), f"releasing callback {name}")
@@ -450,8 +477,9 @@ def _check_run(ctx, mod):
         ctx.check(ok and wit is None, "run/result-passed-through", qn,
                   "the releasing callback does not return the result (or Failure) it was given: run() loses the function's outcome")
     # (4) async context manager
-    f = ctx.func(DEFER, "_ConcurrencyPrimitive.__aexit__")
-    _exactly_one_release(ctx, ctx.cfg(f), q + ".__aexit__", "aexit/releases-exactly-once")
+    with ctx.section("__aexit__"):
+        f = ctx.func(DEFER, "_ConcurrencyPrimitive.__aexit__")
+        _exactly_one_release(ctx, ctx.cfg(f), q + ".__aexit__", "aexit/releases-exactly-once")
     f = ctx.func(DEFER, "_ConcurrencyPrimitive.__aenter__")
     rets = [s for s in ast.walk(f) if isinstance(s, ast.Return)]
     ctx.check(bool(rets) and all(isinstance(s.value, ast.Call) and call_name(s.value) == "self.acquire" for s in rets),
@@ -495,10 +523,14 @@ def _check_sem_init(ctx, mod):
 
 def check(ctx):
     mod = ctx.mod(DEFER)
-    _analyse_primitive(ctx, mod, "DeferredLock", LockSpec())
-    _analyse_primitive(ctx, mod, "DeferredSemaphore", SemSpec())
-    _check_sem_init(ctx, mod)
-    _check_run(ctx, mod)
+    with ctx.section("DeferredLock"):
+        _analyse_primitive(ctx, mod, "DeferredLock", LockSpec())
+    with ctx.section("DeferredSemaphore"):
+        _analyse_primitive(ctx, mod, "DeferredSemaphore", SemSpec())
+    with ctx.section("constructors"):
+        _check_sem_init(ctx, mod)
+    with ctx.section("run"):
+        _check_run(ctx, mod)
 
 
 _LOCK_REL = ('        assert self.locked, "Tried to release an unlocked lock"\n        self.locked = False\n        if self.waiting:\n'
@@ -542,6 +574,8 @@ MUTANTS = [
     Mutant("sem-release-token-after-callout", DEFER, _SEM_REL,
            "        self.tokens = self.tokens + 1\n        if self.waiting:\n            d = self.waiting.pop(0)\n            d.callback(self)\n            self.tokens = self.tokens - 1\n",
            expect_rule="invariant/call-out"),
+    Mutant("release-chained-on-acquire", DEFER, _EXEC, "            return maybeDeferred(f, *args, **kwargs)\n", expect_rule="run/release-only-when-acquired",
+           more=[(DEFER, "        return self.acquire().addCallback(execute)", "        return self.acquire().addCallback(execute).addBoth(self._releaseAndReturn)")]),
     Mutant("function-called-directly", DEFER, _EXEC, "            return f(*args, **kwargs).addBoth(self._releaseAndReturn)\n",
            expect_rule="run/function-via-maybeDeferred"),
 ]
@@ -562,4 +596,25 @@ SILENT = [
            "            self.locked = True\n            self._grantNext()\n\n    def _grantNext(self):\n        d = self.waiting.pop(0)\n        d.callback(self)\n\n\nclass DeferredSemaphore"),
     Silent("lock-acquire-set-after-fire", DEFER, "            self.locked = True\n            d.callback(self)\n        return d",
            "            d.callback(self)\n            self.locked = True\n        return d"),
+]
+
+_LOCK_TAIL = ('        self.locked = False\n        if self.waiting:\n            # someone is waiting to acquire lock\n            self.locked = True\n'
+              '            d = self.waiting.pop(0)\n            d.callback(self)\n')
+_LOCK_LOOP = ('        self.locked = False\n        while self.waiting:\n            d = self.waiting.pop(0)\n            if d.called:\n                continue\n'
+              '            self.locked = True\n            d.callback(self)\n            break\n')
+MUTANTS += [
+    # lazy cancellation: the canceller leaves the Deferred queued and release() skips fired entries
+    Mutant("lock-lazy-cancellation", DEFER, _LOCK_TAIL, _LOCK_LOOP, expect_rule="cancel/removes-from-waiting",
+           more=[(DEFER, _LOCK_CANCEL, _LOCK_CANCEL.replace("self.waiting.remove(d)", "pass"))]),
+    Mutant("lock-release-grants-every-waiter", DEFER, _LOCK_TAIL,
+           "        self.locked = False\n        while self.waiting:\n            self.locked = True\n            d = self.waiting.pop(0)\n            d.callback(self)\n",
+           expect_rule="invariant/call-out"),
+]
+SILENT += [
+    Silent("lock-release-loop-skipping-fired", DEFER, _LOCK_TAIL, _LOCK_LOOP),
+    Silent("lock-acquire-early-return", DEFER, "        if self.locked:\n            self.waiting.append(d)\n        else:\n            self.locked = True\n            d.callback(self)\n        return d",
+           "        if self.locked:\n            self.waiting.append(d)\n            return d\n        self.locked = True\n        d.callback(self)\n        return d"),
+    Silent("sem-release-logs", DEFER, "        self.tokens = self.tokens + 1\n        if self.waiting:", '        self.tokens = self.tokens + 1\n        log.debug("released")\n        if self.waiting:'),
+    Silent("sem-canceller-membership-test", DEFER, '        self.waiting.remove(d)\n\n    def acquire(self: Self) -> Deferred[Self]:\n        """\n        Attempt to acquire the token.',
+           '        if d in self.waiting:\n            self.waiting.remove(d)\n\n    def acquire(self: Self) -> Deferred[Self]:\n        """\n        Attempt to acquire the token.'),
 ]
